@@ -16,7 +16,8 @@
      covered by the differential correspondence of tools/props/c24.py).  The unconditional
      statement for the textX pair is therefore NOT proved (it is false: 4 known findings). *)
 From TxV Require Import Core.Base Model.PegSyntax Model.Peg Gen.SrcLangPeg Gen.SrcTxPeg
-  Proofs.PegProofs Proofs.PegMemo Model.PegEquiv Proofs.PegEquivProofs Proofs.PegEquivTextxProofs.
+  Proofs.PegProofs Proofs.PegMemo Model.PegEquiv Proofs.PegEquivProofs Proofs.PegEquivAccProofs
+  Proofs.PegEquivTextxProofs.
 
 (* Soundness of the checker: no differing pair => same acceptance and same syntax-error position, for
    all inputs, configurations, all oracles satisfying the explicit hypothesis that the regular expressions
@@ -54,7 +55,7 @@ Print Assumptions C24_textx_memo_class.
 Theorem C24_rel_sound : forall g1 g2 ne R input orc,
   orc_nonempty ne orc ->
   frame_ok g1 g2 R = true ->
-  (forall p, In p R -> local_ok g1 g2 ne R p = true \/ sem_ok g1 g2 ne input orc p) ->
+  (forall p, In p R -> local_ok g1 g2 ne false [] R p = true \/ sem_ok g1 g2 ne input orc p) ->
   forall cfg f1 f2, outcome_rel (run g1 cfg orc false f1 input) (run g2 cfg orc false f2 input).
 Proof. exact rel_sound. Qed.
 Print Assumptions C24_rel_sound.
@@ -130,7 +131,76 @@ Print Assumptions C24_nonvacuous_memo.
 (* the traversal of the textX pair covers 160+ pairs of parsing expressions, 13 of them accepted differences *)
 Example C24_textx_pairs :
   frame_ok lang_grammar tx_grammar textx_R = true /\
-  forallb (fun p => local_ok lang_grammar tx_grammar textx_ne textx_R p || accepted_pair p) textx_R = true /\
+  forallb (fun p => local_ok lang_grammar tx_grammar textx_ne false [] textx_R p || accepted_pair p) textx_R = true /\
   140 <= length textx_R /\ length (filter accepted_pair textx_R) <= 13.
 Proof. vm_compute. repeat split; repeat constructor. Qed.
 Print Assumptions C24_textx_pairs.
+
+(* ---------------------------------------------------------------- ACCEPTANCE ONLY (the property's statement)
+   The weak mode of the checker also sees through differences that only change the failure bookkeeping
+   (parser.nm): an ordered choice of two regex matches against one regex match, under the explicit oracle
+   hypothesis orc_alts (the single regex matches like the first alternative where that matches, else like
+   the second) and non-emptiness.  The simulation relates states up to nm; the conclusion is equal
+   acceptance (error positions are covered by C24_check_sound above, in strong mode).  Parser
+   configurations with skipws on (the rule relies on the comment-position cache). *)
+Theorem C24_check_sound_acc : forall ne alts seeds g1 g2,
+  peg_equiv_diffs_acc ne alts seeds g1 g2 = [] ->
+  forall input orc, orc_nonempty ne orc -> orc_alts alts orc ->
+  forall cfg f1 f2, c_skipws cfg = true ->
+  run g1 cfg orc false f1 input <> Aborted 0 -> run g2 cfg orc false f2 input <> Aborted 0 ->
+  accepts (run g1 cfg orc false f1 input) = accepts (run g2 cfg orc false f2 input).
+Proof. exact diffs_sound_acc. Qed.
+Print Assumptions C24_check_sound_acc.
+
+Theorem C24_rel_sound_acc : forall g1 g2 ne alts R input orc,
+  orc_nonempty ne orc -> orc_alts alts orc ->
+  frame_ok g1 g2 R = true ->
+  (forall p, In p R -> local_ok g1 g2 ne true alts R p = true \/ sem_okW g1 g2 ne input orc p) ->
+  forall cfg f1 f2, c_skipws cfg = true ->
+  outcome_acc (run g1 cfg orc false f1 input) (run g2 cfg orc false f2 input).
+Proof. exact rel_sound_acc. Qed.
+Print Assumptions C24_rel_sound_acc.
+
+(* per run: in weak mode the differing pairs of the two live models are within the 11 accepted ones
+   (8 behind the four known findings, rrel_sequence, rrel_path.0, rule_ref) *)
+Theorem C24_diffs_acc :
+  incl_b (diff_labels lang_labels tx_labels
+            (peg_equiv_diffs_acc textx_ne textx_alts (seeds_of lang_labels tx_labels textx_seeds) lang_grammar tx_grammar))
+         textx_accepted_diffs_acc = true
+  /\ length textx_accepted_diffs_acc = 11 /\ c_skipws lang_config = true
+  /\ length textx_alts = length textx_alt_patterns.
+Proof. vm_compute. repeat split. Qed.
+Print Assumptions C24_diffs_acc.
+
+(* the two live parser models accept the same texts, for every oracle satisfying the two checked hypotheses,
+   PROVIDED the 11 accepted pairs are related (false for the 8 finding pairs, unproved for 3 notation pairs) *)
+Theorem C24_textx_accepts_modulo_accepted : forall input orc,
+  orc_nonempty textx_ne orc -> orc_alts textx_alts orc ->
+  (forall p, In p textx_R -> accepted_pair_acc p = true -> sem_okW lang_grammar tx_grammar textx_ne input orc p) ->
+  forall f1 f2,
+  run lang_grammar lang_config orc false f1 input <> Aborted 0 ->
+  run tx_grammar tx_config orc false f2 input <> Aborted 0 ->
+  accepts (run lang_grammar lang_config orc false f1 input) = accepts (run tx_grammar tx_config orc false f2 input).
+Proof. exact textx_accepts_modulo_accepted. Qed.
+Print Assumptions C24_textx_accepts_modulo_accepted.
+
+(* non-vacuity of the two oracle hypotheses and of the weak rule; the strong mode refuses the same pair *)
+Example C24_nonvacuous_alts :
+  orc_nonempty [0; 1] orc_ex /\ orc_alts [(0, 1, 2)] orc_ex /\
+  peg_equiv_diffs_acc [0; 1] [(0, 1, 2)] [] g_c1 g_c2 = [] /\
+  peg_equiv_diffs [0; 1] [] g_c1 g_c2 <> [] /\
+  accepts (run g_c1 cfg0 orc_ex false 30 [98]%N) = true /\ accepts (run g_c2 cfg0 orc_ex false 30 [98]%N) = true /\
+  accepts (run g_c1 cfg0 orc_ex false 30 [98; 98]%N) = false /\ accepts (run g_c2 cfg0 orc_ex false 30 [98; 98]%N) = false.
+Proof. exact witness_alts. Qed.
+Print Assumptions C24_nonvacuous_alts.
+
+(* why `(x sep)* x` vs `x+[sep]` (the two RREL pairs) stays an accepted pair: the two forms differ AS NODES
+   (on "x," the first fails, the second succeeds having consumed "x"), although the grammars around them agree *)
+Example C24_tail_form_differs :
+  peg_equiv_diffs_acc [] [] [] g_t1 g_t2 <> [] /\
+  is_fail (parse g_t1 [120; 44]%N no_orc false 40 1 false (init_st cfg0)) = true /\
+  ok_pos (parse g_t2 [120; 44]%N no_orc false 40 1 false (init_st cfg0)) = Some 1 /\
+  accepts (run g_t1 cfg0 no_orc false 40 [120; 44]%N) = false /\ accepts (run g_t2 cfg0 no_orc false 40 [120; 44]%N) = false /\
+  accepts (run g_t1 cfg0 no_orc false 40 [120; 44; 120]%N) = true /\ accepts (run g_t2 cfg0 no_orc false 40 [120; 44; 120]%N) = true.
+Proof. exact tail_form_differs. Qed.
+Print Assumptions C24_tail_form_differs.
